@@ -983,12 +983,11 @@ class Check:
                     if res is False:
                         raise self._ValidationError
                 except Exception as e:
+                    if self.default is not RAISE:
+                        return self.default
                     msg = ('expected %r check to validate target'
                            % getattr(validator, '__name__', None) or ('#%s' % i))
-                    if type(e) is self._ValidationError:
-                        if self.default is not RAISE:
-                            return self.default
-                    else:
+                    if type(e) is not self._ValidationError:
                         msg += ' (got exception: %r)' % e
                     errs.append(msg)
 
